@@ -88,8 +88,8 @@ func ProfileFor(name string) Profile {
 			W:      wts(map[string]int{"createindex": 6, "dropindex": 4, "truncate": 2, "replace": 12, "delete": 16}),
 			ReuseP: 0.5, NullP: 0.2, OmitP: 0.2, KeyUpdP: 0.4, Probes: true, MinLen: 20, MaxLen: 40}
 	case "c19":
-		return Profile{Name: name, Tables: 1, PKNone: 2, PKSingle: 6, PKComposite: 2, StrKeyP: 0.2, CIP: 0.4, UniqP: 0.3, UniqMultiP: 0.2,
-			NotNullP: 0.45, DefaultP: 0.5, CheckP: 0.8, GenP: 0.9, GenWide: true, VirtualP: 0.2, GenCheckP: 0.6,
+		return Profile{Name: name, Tables: 1, PKNone: 1, PKSingle: 6, PKComposite: 3, StrKeyP: 0.2, CIP: 0.4, UniqP: 0.3, UniqMultiP: 0.2,
+			NotNullP: 0.45, DefaultP: 0.5, CheckP: 0.8, GenP: 0.92, GenWide: true, VirtualP: 0.12, GenCheckP: 0.6,
 			W:      wts(map[string]int{"insert": 26, "ignore": 14, "updignore": 8, "odku": 22, "replace": 8, "inssel": 8, "delete": 10}),
 			ReuseP: 0.4, NullP: 0.25, NullNotNull: 0.12, OmitP: 0.5, KeyUpdP: 0.15, MinLen: 10, MaxLen: 40}
 	case "c20":
@@ -296,6 +296,18 @@ func (g *Gen) table(name string) *Table {
 		if len(cands) > 0 {
 			gi := cands[g.pick(len(cands))]
 			c := &t.Cols[gi-1]
+			if p.GenWide {
+				// take a candidate that has something to read (an INT column with another INT base column, ..)
+				for _, x := range cands {
+					if t.Cols[gi-1].Ty == "i" && len(g.baseCols(t, "i", gi)) > 0 {
+						break
+					}
+					if t.Cols[x-1].Ty == "i" && len(g.baseCols(t, "i", x)) > 0 {
+						gi = x
+					}
+				}
+				c = &t.Cols[gi-1]
+			}
 			c.HasDef, c.Def, c.NotNull = false, sqlast.Null(), false
 			if e := g.genExpr(t, gi); e != nil {
 				c.HasGen, c.Gen = true, e
